@@ -1,5 +1,7 @@
 # Lentil internal helper functions
 
+import builtins
+
 import numpy as np
 
 import lentil
@@ -102,7 +104,8 @@ def slice_offset(slice, shape):
         offset = (0, 0)
     elif Ellipsis in slice:
         # The only case we know enough to deal with is (Ellipsis, slice(None, None, None))
-        if slice(None, None, None) in slice:
+        # the parameter named `slice` shadows the builtin: use the builtin explicitly
+        if builtins.slice(None, None, None) in slice:
             offset = (0, 0)
         else:
             raise ValueError(f"Can't compute offset from slice {slice}")
